@@ -204,8 +204,11 @@ def plan(seed, tier="quick", index=0):
         "cut_seed": rng.getrandbits(32),
         "short_read_rate": rng.choice([0.0, 0.0, 0.05, 0.3]),
         "delay_mode": rng.choice(["none", "none", "jitter", "slow"]),
+        "sock_timeout": None,
         "fault": None,
     }
+    if sc["delay_mode"] != "slow" and rng.random() < 0.4:
+        sc["sock_timeout"] = 5.0  # as Node.connect_peer configures its sockets
     if stratum == "clean" and nframes >= 2 and rng.random() < 0.4:
         sc["abandon_after"] = rng.randrange(1, nframes)
         sc["cut_mode"] = rng.choice(["whole", "whole", "frames", "random"])
@@ -578,6 +581,8 @@ def execute(scenario, tape=None, keep_events=False):
         net.by_port[peer.port] = peer
         net.set_recv_cap(4 * len(stream) + 64)
         sock = net.new_socket()
+        if scenario.get("sock_timeout"):
+            sock.settimeout(scenario["sock_timeout"])  # a timeout is set but never reached (gaps stay far below it)
         sock.connect((peer.host, peer.port))
         # -- reference verdict on the same faulty byte stream
         ref = frames.parse_stream(stream, magic)
@@ -681,7 +686,9 @@ def execute(scenario, tape=None, keep_events=False):
             if want_recycle:
                 spare = []
                 for _ in range(64):
-                    cand = SimSocket(net)
+                    cls = net.socket_class or SimSocket
+                    cand = cls.__new__(cls)  # same type (and size) as the dead one, not yet registered with the network
+                    SimSocket.__init__(cand, net)
                     if id(cand) == dead_id:
                         recycled = cand
                         break
